@@ -43,7 +43,7 @@ fn replay_recipe(id: &str, tier: Tier, v: &serde_json::Value) -> i32 {
     use gen::Recipe;
     let mut st = runner::Stats::default();
     let lim_c04 = tier.pick(gen::Limits { long: 3_000, huge: 100_000 }, gen::Limits { long: 10_000, huge: 1_000_000 });
-    let lim_c19 = tier.pick(gen::Limits { long: 1_500, huge: 5_000 }, gen::Limits { long: 10_000, huge: 100_000 });
+    let lim_c19 = tier.pick(gen::Limits { long: 1_500, huge: 20_000 }, gen::Limits { long: 10_000, huge: 100_000 });
     if let Some(i) = v["sweep_index"].as_u64() {
         let r = match id {
             "C04" => props::c04::replay_sweep(i, tier, &mut st),
@@ -123,6 +123,12 @@ fn main() {
     let threads: usize = std::env::var("VERIF_THREADS").ok().and_then(|s| s.parse().ok()).unwrap_or_else(|| std::thread::available_parallelism().map(|n| n.get()).unwrap_or(8));
     let scale: f64 = std::env::var("VERIF_SCALE").ok().and_then(|s| s.parse().ok()).unwrap_or(1.0);
     let id = args[1].clone();
+    if id == "c08t-inputs" {
+        let n: u64 = args.get(3).and_then(|s| s.parse().ok()).unwrap_or(8);
+        let s: u64 = args.get(2).and_then(|s| s.parse().ok()).unwrap_or(0);
+        selftest::write_c08t_inputs(s, n, &PathBuf::from(args.get(4).cloned().unwrap_or_else(|| "/verif/build/c08t.txt".into())));
+        return;
+    }
     if id == "fuzz-seeds" {
         // regenerate the committed libFuzzer seed corpora from the generator families (fixed recipes)
         let dir = PathBuf::from(args.get(2).cloned().unwrap_or_else(|| "/verif/fuzz/seeds".into()));
@@ -164,6 +170,28 @@ fn main() {
             eprintln!("bad replay file: {e}");
             std::process::exit(2);
         });
+        if v["case"]["kind"] == "miri-c08t" {
+            let tmp = std::env::temp_dir().join(format!("mlv-c08t-{}.txt", std::process::id()));
+            std::fs::write(&tmp, format!("{}\n", v["case"]["input_line"].as_str().unwrap_or(""))).ok();
+            let st = std::process::Command::new("cargo")
+                .current_dir(verif_dir.join("harness"))
+                .args(["+nightly", "miri", "run", "-q", "-p", "mlv", "--bin", "mlv-miri", "--", "C08T", tmp.to_str().unwrap()])
+                .env("MIRIFLAGS", "-Zmiri-tree-borrows -Zmiri-disable-isolation -Zmiri-no-extra-rounding-error")
+                .env("CARGO_TARGET_DIR", verif_dir.join("build").join("miri"))
+                .env("CARGO_NET_OFFLINE", "true")
+                .status();
+            let _ = std::fs::remove_file(&tmp);
+            match st {
+                Ok(s) if s.success() => {
+                    println!("replay: property {} holds on this input (Miri, tree borrows)", id);
+                    std::process::exit(0);
+                }
+                _ => {
+                    println!("VIOLATION property={} replay={}", id, args[3]);
+                    std::process::exit(1);
+                }
+            }
+        }
         if v["case"]["kind"] == "l32" {
             let seed = v["case"]["seed"].as_u64().unwrap_or(0).to_string();
             let count = v["case"]["count"].as_u64().unwrap_or(4).to_string();
